@@ -523,6 +523,8 @@ func (ex *Exec) scalar(v Val) Term {
 		panic(unsupported("interior or local pointer used as a first-class value (%s)", shortType(x.Ty)))
 	case FuncV:
 		return IntLit(int64(1000000 + len(x.Fn.Name())))
+	case ParamFuncV:
+		return IntLit(999999)
 	}
 	panic(unsupported("aggregate used where a scalar is needed (%T)", v))
 }
@@ -797,12 +799,41 @@ func (ex *Exec) mergeVals(hint string, vs []Val, conds []Term) Val {
 				return Scalar{MkIface(Term{dyn, SInt}, p), v0.Ty}
 			}
 		}
+		if hint == "" {
+			hint = "m"
+		}
+		if srt := v0.T.Sort; srt.IsArray() {
+			// arrays (heaps) are merged pointwise: an if-then-else between whole arrays makes the solvers
+			// reason about array equality, which they do badly
+			c := ex.vc.fresh(hint, srt)
+			var bs []Bound
+			sel := func(t Term) Term { return t }
+			depth := 1
+			if srt.Elem().IsArray() {
+				depth = 2
+			}
+			var idx []Term
+			for d := 0; d < depth; d++ {
+				n := fmt.Sprintf("m%d?", d)
+				bs = append(bs, Bound{n, SInt})
+				idx = append(idx, Var(n, SInt))
+			}
+			sel = func(t Term) Term {
+				for _, ix := range idx {
+					t = Select(t, ix)
+				}
+				return t
+			}
+			acc := sel(ex.scalar(vs[len(vs)-1]))
+			for i := len(vs) - 2; i >= 0; i-- {
+				acc = Ite(conds[i], sel(ex.scalar(vs[i])), acc)
+			}
+			ex.vc.assume(ForallPat(bs, Eq(sel(c), acc), [][]Term{{sel(c)}}))
+			return Scalar{c, v0.Ty}
+		}
 		acc := ex.scalar(vs[len(vs)-1])
 		for i := len(vs) - 2; i >= 0; i-- {
 			acc = Ite(conds[i], ex.scalar(vs[i]), acc)
-		}
-		if hint == "" {
-			hint = "m"
 		}
 		c := ex.vc.fresh(hint, acc.Sort)
 		ex.vc.assume(Eq(c, acc))
@@ -850,6 +881,8 @@ func (ex *Exec) mergeVals(hint string, vs []Val, conds []Term) Val {
 				panic(unsupported("merging different function values"))
 			}
 		}
+		return v0
+	case ParamFuncV:
 		return v0
 	}
 	panic(fmt.Sprintf("mergeVals: unexpected %T", vs[0]))
